@@ -3,7 +3,7 @@ NEXT RNext
 CONSTANTS
   Ecus = {"A"}
   MaxMsgs = 5
-  RxDeltas = {0, 1, 11, 61}
+  RxDeltas = {0, 1, 11}
   TsVals = {0, 70}
   Kinds = {"norm"}
   IdxDeltas = {1}
@@ -11,7 +11,7 @@ CONSTANTS
   Scheds = {0}
   FreePolls = TRUE
   PartialRecv = TRUE
-  EacTimer = TRUE
+  EacTimer = FALSE
   FixWithdraw = TRUE
 VIEW RView
 INVARIANTS NoMissingNoStale ExtraOnlyRemoved FileInfoOk EacOk CountsOk TableMirror NoExtra
